@@ -131,30 +131,14 @@ func ruleP2(c *Ctx, id string) {
 		if s == nil {
 			continue
 		}
-		// loop offset phi: a phi in a cycle whose back-edge inputs are phi + const
-		offPhi := stepPhi(s, constOfPkg(P, "dir", "DIRENTSZ"))
-		if offPhi == nil {
-			R.Undecided(id, spec+"|offset variable", P.Pos(s.Pos()), "the scan loop has an offset variable", "no phi named off")
+		// the scan offset: a register stepped on the back edges, or a cell advanced by the body / a local closure
+		off := findLoopVar(s, constOfPkg(P, "dir", "DIRENTSZ"))
+		if off == nil {
+			R.Undecided(id, spec+"|offset variable", P.Pos(s.Pos()), "the scan loop has an offset variable", "no variable stepped by DIRENTSZ found")
 			continue
 		}
-		okInc := true
-		nBack := 0
-		for i, e := range offPhi.Edges {
-			pred := offPhi.Block().Preds[i]
-			if !offPhi.Block().Dominates(pred) {
-				continue // entry edge
-			}
-			nBack++
-			bo, ok := e.(*ssa.BinOp)
-			if !ok || bo.Op != token.ADD || bo.X != ssa.Value(offPhi) {
-				okInc = false
-				continue
-			}
-			if k, isk := constInt(bo.Y); !isk || k <= 0 {
-				okInc = false
-			}
-		}
-		R.Check(okInc && nBack > 0, id, spec+"|offset strictly increases", P.Pos(offPhi.Pos()), "every back edge of the scan loop carries off + c with c > 0", fmt.Sprintf("%d back edges, all off + positive constant", nBack), "a path through the loop body does not advance the offset: the scan never terminates")
+		okInc, nBack := off.alwaysAdvances()
+		R.Check(okInc && nBack > 0, id, spec+"|offset strictly increases", P.Pos(off.pos()), "every back edge of the scan loop carries off + c with c > 0", fmt.Sprintf("%d advancing sites, every way round the loop passes one", nBack), "a path through the loop body does not advance the offset: the scan never terminates")
 		// callback before limit test
 		fparam := funcParam(s)
 		isCb := func(in ssa.Instruction) bool {
@@ -340,19 +324,22 @@ func ruleP4(c *Ctx, id string) {
 
 // scanBound finds, in a directory scanner, the offset variable (a phi stepped
 // by DIRENTSZ) and the loop's bound test "off < dip.Size" (dip = first parameter).
-func scanBound(c *Ctx, s *ssa.Function) (*ssa.Phi, *Branch) {
-	offPhi := stepPhi(s, constOfPkg(c.P, "dir", "DIRENTSZ"))
-	if offPhi == nil {
+func scanBound(c *Ctx, s *ssa.Function) (*loopVar, *Branch) {
+	off := findLoopVar(s, constOfPkg(c.P, "dir", "DIRENTSZ"))
+	if off == nil {
 		return nil, nil
 	}
 	for _, br := range branches(s) {
 		br := br
+		if br.Cond.X == nil || br.Cond.Y == nil {
+			continue
+		}
 		n, fl, base, _ := loadedField(br.Cond.Y)
-		if br.Cond.Op == token.LSS && br.Cond.X == ssa.Value(offPhi) && n == c.V.Inode && fl == "Size" && base == ssa.Value(s.Params[0]) {
-			return offPhi, &br
+		if br.Cond.Op == token.LSS && off.is(br.Cond.X) && n == c.V.Inode && fl == "Size" && base == ssa.Value(s.Params[0]) {
+			return off, &br
 		}
 	}
-	return offPhi, nil
+	return off, nil
 }
 
 // trueOnlyViaBound: the boolean result of s is built from constants only, and
